@@ -229,8 +229,9 @@ CLAIMED['C17'] = dict(
          '(a value exactly for exported names, the one stored for that very name), module_instance (fields set exactly per export), '
          'set/get by slot and name, Module::import over module trees of depth 2 / 3. Found and fixed F10 (path[0] at every depth), '
          'F20 (exit status 0) and F28 (a refused duplicate insert_symbol corrupted the name table). C17.K4 Fiber::complete for a '
-         'child of a fiber that sleeps in an import: only the module fiber may resume the importer - KNOWN FINDING F30 (any child '
-         'launched before the import resumes it; replayed natively). Other scheduling histories of concurrent importers are not '
+         'child of a fiber that sleeps in an import: only the module fiber may resume the importer (found F30: any child launched '
+         'before the import resumed it while the module body was blocked; replayed natively; fixed); C17.K2 loading a module file '
+         'leaves the package table alone (F45: a user std.lay imported as self.std replaced the std package). Other scheduling histories of concurrent importers are not '
          'machine checked.',
     note='Trusted: rustc MIR printer, mirsym, abstract identities for modules / strings (paths compare by identity: interning is '
          'C09), laythe Map over the association-list hash map model, Z3. Assumes the working directory exists.',
